@@ -332,7 +332,7 @@ def materialise(case):
     return raw
 
 
-TOOLRUNS = [("ovniemu", ["-l"]), ("ovniemu", ["-b"]), ("ovniemu", ["-a"]), ("ovnidump", []), ("ovnidump", ["-x"]),
+TOOLRUNS = [("ovniemu", ["-l"]), ("ovniemu", ["-b"]), ("ovniemu", ["-a"]), ("ovniemu", ["-d"]), ("ovnidump", []), ("ovnidump", ["-x"]),
             ("ovnitop", []), ("ovnisort", ["-c"]), ("ovnisort", []), ("ovnisort", ["-n", "3"])]
 
 
@@ -392,6 +392,58 @@ def run(case, ctx):
         ctx.stats.extra["inconclusive_wall_timeouts"] = ctx.stats.extra.get("inconclusive_wall_timeouts", 0) + incon
     key = None
     return {"nt": ntr, "cls": ["mut:%s:%s" % (m[0], m[1]) for m in case["muts"]]}
+
+
+# ---- every listed event code with every payload shape ---------------------------------
+
+SHAPE_SIZES = [0, 2, 3, 4, 7, 8, 12, 15, 16]
+SHAPE_JUMBO = [0, 1, 3, 4, 5, 8, 40]
+SHAPE_RUNS = [("ovniemu", ["-l"]), ("ovniemu", ["-d"]), ("ovniemu", ["-a", "-b"]), ("ovnidump", []), ("ovnidump", ["-x"]),
+              ("ovnitop", []), ("ovnisort", ["-c"])]
+
+
+def enum_shapes(ctx):
+    """(listed event code) x (payload size, normal and jumbo) x (followed by OHe / last event of the stream)"""
+    models, decls = evdoc.load()
+    quick = ctx.tier == "quick"
+    for d in decls:
+        for n in ([0, 3, 4, 8, 16] if quick else SHAPE_SIZES):
+            yield {"mcv": d.mcv, "n": n, "jumbo": 0, "last": 1}
+            if not quick:
+                yield {"mcv": d.mcv, "n": n, "jumbo": 0, "last": 0}
+        for n in (SHAPE_JUMBO[:4] if quick else SHAPE_JUMBO):
+            yield {"mcv": d.mcv, "n": n, "jumbo": 1, "last": 1}
+            if not quick:
+                yield {"mcv": d.mcv, "n": n, "jumbo": 1, "last": 0}
+
+
+def run_shape(case, ctx):
+    b = ctx.b("asan")
+    mcv = case["mcv"]
+    models, decls = evdoc.load()
+    req = {"ovni": models["O"][1]}
+    m = mcv[0]
+    if m in models and m != "O":
+        req[models[m][0]] = models[m][1]
+    body = bytes(range(1, 1 + case["n"]))
+    evs = [T.OHx(100, 0), [mcv, 110, body.hex(), case["jumbo"]]]
+    if not case["last"]:
+        evs.append(T.plain("OHe", 120))
+    tr = {"streams": [{"loom": "n.0", "pid": 1, "tid": 1, "app": 1, "cpus": [[0, 0], [1, 1]], "require": req,
+                       "extra": {"ovni.mark": {"1": {"title": "m", "chan_type": "single"}}}, "events": evs}]}
+    d = ctx.newdir()
+    nruns = 0
+    try:
+        T.write_trace(tr, d)
+        for tool, flags in SHAPE_RUNS:
+            r = tools.run([b.tool(tool)] + flags + [d], heapbuf=True, cpu_s=10, wall_s=120)
+            nruns += 1
+            check_result(r, "%s %s on %s with %d %spayload bytes%s" % (tool, " ".join(flags), mcv, case["n"], "jumbo " if case["jumbo"] else "",
+                                                                         " as the last event of the stream" if case["last"] else ""))
+    finally:
+        ctx.rmdir(d)
+    ctx.stats.extra["tool_runs"] = ctx.stats.extra.get("tool_runs", 0) + nruns
+    return {"nt": True, "cls": ["shape:%s" % ("jumbo" if case["jumbo"] else "normal")], "key": "%s/%d/%d/%d" % (mcv, case["n"], case["jumbo"], case["last"])}
 
 
 # ---- in-process, coverage-guided (libFuzzer) ------------------------------------------
@@ -468,4 +520,5 @@ def _asan_log(d):
 def parts(tier):
     return [Part("mutated-traces", run, strategy=lambda ctx: cases(), budget={"quick": 4000, "thorough": 40000},
                  cap_s={"quick": 400, "thorough": 3400}),
+            Part("listed-event-shapes", run_shape, enum=enum_shapes, cap_s={"quick": 300, "thorough": 3000}),
             Part("fuzz-stream", run_fuzz, enum=enum_fuzz, cap_s={"quick": 200, "thorough": 3000})]
